@@ -113,32 +113,44 @@ def private_step(req, k, g, meta, path=None, force_basic=None):
     return st
 
 
-def setup(vs, alias, nick):
+def setup(vs, alias, nick, ended_by="delete"):
     """Steps that bring a new victim into state vs, with the abstract requests
-    they correspond to (they are part of the trace)."""
+    they correspond to (they are part of the trace).
+
+    quitLast: ended by its own QUIT line, nothing newer processed since
+              (lookups answer ErrSessionNotYetSeen);
+    deleted:  ended by DELETE (a DeleteSession entry, newer than the victim), or
+              ended by QUIT and then a session created later posted a line
+              (ended_by="quit+later"): lookups answer ErrNoSuchSession."""
     post = {"disp": "public", "method": "POST", "shape": "sid/message", "target": "V", "cred": "correct", "basic": "none"}
     dele = {"disp": "public", "method": "DELETE", "shape": "sid", "target": "V", "cred": "correct", "basic": "none"}
     steps = [{"op": "create_session", "as": alias, "tag": {"victim": alias}}]
 
-    def add(st, req, login):
-        st["tag"] = {"victim": alias, "setup": True, "req": req, "login": login}
+    def add(st, req, kind):
+        st["tag"] = {"victim": alias, "setup": True, "req": req, "kind": kind}
         steps.append(st)
 
     if vs == "fresh":
-        add({"op": "post", "session": alias, "data": "PING :fresh"}, post, False)
-    else:
-        add({"op": "post", "session": alias, "data": "NICK " + nick}, post, False)
-        add({"op": "post", "session": alias, "data": "USER %s 0 * :%s" % (nick, nick)}, post, True)
+        add({"op": "post", "session": alias, "data": "PING :fresh"}, post, "plain")
+        return steps
+    add({"op": "post", "session": alias, "data": "NICK " + nick}, post, "plain")
+    add({"op": "post", "session": alias, "data": "USER %s 0 * :%s" % (nick, nick)}, post, "login")
+    if vs == "quitLast" or (vs == "deleted" and ended_by == "quit+later"):
+        add({"op": "post", "session": alias, "data": "QUIT :gone"}, post, "quit")
         if vs == "deleted":
-            add({"op": "delete", "session": alias, "quitmessage": "gone"}, dele, False)
+            w = "W" + alias
+            steps.append({"op": "create_session", "as": w})
+            steps.append({"op": "post", "session": w, "data": "PING :later", "tag": {"victim": alias, "later": True}})
+    elif vs == "deleted":
+        add({"op": "delete", "session": alias, "quitmessage": "gone"}, dele, "plain")
     return steps
 
 
 # ------------------------------------------------------------------ programs
 def public_programs(ctx, table, g, shards):
     progs = []
-    rows = [r for r in table if r["req"]["disp"] == "public"]
-    for vs in ("fresh", "loggedIn", "deleted"):
+    rows = [r for r in table if r["req"]["disp"] == "public" and r["req"]["target"] != "next" and r["phase"] == "static"]
+    for vs in ("fresh", "loggedIn", "quitLast", "deleted"):
         grp = [r for r in rows if r["vs"] == vs]
         g.rnd.shuffle(grp)
         for sh in range(shards):
@@ -150,7 +162,8 @@ def public_programs(ctx, table, g, shards):
             def victim():
                 nv[0] += 1
                 a = "V%d" % nv[0]
-                steps.extend(setup(vs, a, "v%s%d%d" % (vs[0], sh, nv[0])))
+                steps.extend(setup(vs, a, "v%s%d%d" % (vs[0], sh, nv[0]),
+                                   ended_by=("delete", "quit+later")[(sh + nv[0]) % 2]))
                 return a
 
             v = victim()
@@ -319,11 +332,150 @@ def public_fuzz_programs(ctx, pub, g, shards):
     return progs
 
 
+# ------------------------------------------------- the session that appears
+TRAFFIC_CMID = 77
+
+
+def dynamic_programs(ctx, table, g, shards):
+    """Requests that name the NEXT session id (predictable: raft last index + 1):
+    while it does not exist (static), kept in flight while the session is created
+    and gets traffic (inflight), and once it lives (static, N live)."""
+    rows = [r for r in table if r["req"]["disp"] == "public" and r["req"]["target"] == "next"]
+    absent = [r for r in rows if r["phase"] == "static" and r["ns"] == "absent"]
+    live = [r for r in rows if r["phase"] == "static" and r["ns"] == "live"]
+    infl = [r for r in rows if r["phase"] == "inflight"]
+    for l in (absent, live, infl):
+        l.sort(key=lambda r: json.dumps(r["req"], sort_keys=True))
+        g.rnd.shuffle(l)
+    absent_creds = ["wrongRandom", "raw:0", "raw:" + "f" * 256, "raw:deadbeef"]
+    infl = [(r, fa) for r in infl
+            for fa in (absent_creds if g.thorough and r["req"]["cred"] == "wrong" else [None])]
+    progs = []
+    for sh in range(shards):
+        steps = [{"op": "create_session", "as": "O"}, {"op": "login", "session": "O", "nick": "dyn%d" % sh}]
+        A, L, I = absent[sh::shards], live[sh::shards], infl[sh::shards]
+        for n in range(max(len(A), len(L), len(I))):
+            nalias = "N%d" % n
+            steps.append({"op": "probe", "tag": {"dyn": "reset"}})
+            if n < len(A):
+                steps += dyn_steps(A[n], None, g, "static", "absent")
+            appear = [{"op": "create_session", "as": nalias, "tag": {"dyn": "appear", "n": nalias}},
+                      {"op": "post", "session": nalias, "data": "PING :traffic", "cmid": TRAFFIC_CMID,
+                       "tag": {"dyn": "traffic", "n": nalias}}]
+            if n < len(I):
+                row, fa = I[n]
+                st = dyn_steps(row, None, g, "inflight", "absent", force_auth=fa)[0]
+                st.update({"bg": "bg%d" % n, "ms": 60})
+                st.pop("until", None)
+                st["tag"]["dyn"] = "arrive"
+                steps.append(st)
+                steps += appear
+                steps.append({"op": "collect", "bg": "bg%d" % n, "ms": 600, "until": 1,
+                              "tag": {"dyn": "complete", "n": nalias, "req": row["req"], "expect": row["resp"]}})
+            else:
+                steps += appear
+            if n < len(L):
+                steps += dyn_steps(L[n], nalias, g, "static", "live")
+        progs.append({"name": "dyn-%d" % sh, "opts": {}, "steps": steps})
+    return progs
+
+
+def dyn_steps(row, nalias, g, phase, ns, force_auth=None):
+    req = row["req"]
+    sid = "{sid:%s}" % nalias if nalias else "{next}"
+    shape = req["shape"]
+    path = PREFIX + {"sid": sid, "sid/message": sid + "/message", "sid/messages": sid + "/messages",
+                     "sid/other": sid + "/" + g.cyc(OTHER_SUFFIX), "sid/x/message": sid + "/x/message"}[shape]
+    out = []
+    variants = [force_auth] if force_auth or not (g.thorough and req["cred"] == "wrong" and nalias) else WRONG_CREDS
+    for fa in variants:
+        if fa is None and req["cred"] == "wrong" and not nalias:
+            fa = g.cyc(["wrongRandom", "raw:0", "raw:" + "f" * 256, "raw:deadbeef"])
+        meta = {"dyn": "req", "req": req, "row": True, "expect": row["resp"], "ns": ns, "phase": phase,
+                "sessState": row["sessState"], "n": nalias}
+        st = raw_public_step(req, nalias or "O", len(out), g, meta, path, fa)
+        if not nalias and st["auth"] in WRONG_CREDS:
+            st["auth"] = "wrongRandom"
+        meta["auth"] = st["auth"]
+        out.append(st)
+    return out
+
+
+def dynamic(ctx, prog, steps, i, st, tag, r, trace, verd, stats):
+    """Evaluation of the steps of dynamic_programs()."""
+    kind = tag["dyn"]
+    name = prog["name"]
+    if kind == "reset":
+        trace.append({"ev": "Reset"})
+        return
+    if kind in ("appear", "traffic", "discard"):
+        if kind != "discard" and r.get("status") != 200:
+            raise vlib.Inconclusive("%s: step %d (%s) failed: %s" % (name, i, kind, r))
+        if kind == "traffic":
+            trace.append({"ev": "Appear"})
+        return
+    req = tag["req"]
+    replay = {"program": {"name": name, "opts": {}, "steps": prog["steps"][:i + 1]}, "step": i}
+    cls = "%s-%s-cred-%s-state-%s" % (req["method"], req["shape"].replace("/", "_"), req["cred"],
+                                      "appearing" if kind in ("arrive", "complete") else tag.get("sessState"))
+    if kind == "arrive":
+        stats["inflight"] = stats.get("inflight", 0) + 1
+        trace.append({"ev": "Arrive", "req": req})
+        return
+    nalias = tag.get("n")
+    lines = r.get("lines") or []
+    status = r.get("status", 0)
+    what = "%s %s with credential %s (%s)" % (st.get("method", req["method"]), st.get("path", ""), req["cred"], tag.get("auth"))
+    stats["requests"] = stats.get("requests", 0) + 1
+    stats["public_unauthorized"] = stats.get("public_unauthorized", 0) + 1
+    if kind == "complete":
+        # the window: request sent -> N created -> N's traffic -> answer read
+        j = i - 3
+        first = steps[j][-1]
+        what = "%s %s with credential %s (%s), sent before the session existed and answered after it appeared" % (
+            req["method"], prog["steps"][j]["path"], req["cred"], prog["steps"][j]["tag"].get("auth"))
+        pre, post = first.get("pre"), r.get("post")
+        n = rig_common.sess(post, nalias)
+        window = {"raft": post["raftLast"] - pre["raftLast"], "out": post["outCount"] - pre["outCount"],
+                  "sessions": post["nSessions"] - pre["nSessions"]}
+        effect = "none"
+        if n is None or n["exists"] != "ok":
+            effect = "delete"
+        elif window != {"raft": 2, "out": 1, "sessions": 1} or n["lastCmid"] != TRAFFIC_CMID:
+            effect = "post"
+        changed = ["window %s, N marker %s" % (window, n and n["lastCmid"])]
+        pending = bool((r.get("extra") or {}).get("pending"))
+        obs = {"status": "pending" if pending else str(status), "effect": effect, "discloses": len(lines) > 0}
+        trace.append({"ev": "Complete", "req": req, "vs": "fresh", "obs": obs})
+        if pending:
+            ctx.drift("%s was still unanswered 1 s after the session appeared" % what)
+    else:
+        obs, changed, lines = observe(r, nalias, False, req["method"])
+        trace.append({"ev": "Req", "req": req, "vs": "fresh", "vsAfter": "fresh", "ns": tag["ns"], "kind": "plain", "obs": obs})
+        effect = obs["effect"]
+        stats["rows"] = stats.get("rows", 0) + 1
+    if r.get("died"):
+        verd.bad("unauthorized-request-killed-node-" + cls, what + " killed the node", replay)
+    elif effect != "none":
+        verd.bad("session-effect-without-secret-" + cls, "%s had an effect: %s (status %s)" % (what, changed, status), replay)
+    elif lines:
+        verd.bad("messages-revealed-without-secret-" + cls,
+                 "%s revealed %d message line(s), e.g. %r" % (what, len(lines), lines[0]["data"][:60]), replay)
+    elif 200 <= status < 300:
+        verd.bad("refused-request-answered-2xx-" + cls, "%s was answered %s: not refused" % (what, status), replay)
+
+
 # ---------------------------------------------------------------- evaluation
+ENDED = ("quitLast", "deleted")
+
+
 def vstate(probe, alias):
+    """the victim's state as the real server's lookups see it"""
     s = rig_common.sess(probe, alias)
-    if s is None or s["exists"] != "ok":
-        return "deleted"
+    if s is None or s["exists"] == "nosuch":
+        return "deleted"          # ErrNoSuchSession
+    if s["exists"] != "ok":
+        return "quitLast"         # ended, but lookups still answer ErrSessionNotYetSeen
     return "loggedIn" if s["loggedIn"] else "fresh"
 
 
@@ -334,7 +486,7 @@ def status_class(r):
     return str(s)
 
 
-def observe(r, victim, private):
+def observe(r, victim, private, method="GET"):
     d = r.get("delta") or {}
     pre, post = r.get("pre"), r.get("post")
     effect = "none"
@@ -345,8 +497,8 @@ def observe(r, victim, private):
                 changed.append("%s%+d" % (key, d[key]))
         if d.get("sessions", 0) > 0:
             effect = "create"
-        elif victim and vstate(pre, victim) != "deleted" and vstate(post, victim) == "deleted":
-            effect = "delete"
+        elif victim and vstate(pre, victim) not in ENDED and vstate(post, victim) in ENDED:
+            effect = "delete" if method == "DELETE" else "post"   # ended by DELETE / by its own QUIT line
         elif changed:
             effect = "post"
     lines = r.get("lines") or []
@@ -389,6 +541,15 @@ def evaluate(ctx, prog, recs, trace, verd, stats):
     for i, st in enumerate(prog["steps"]):
         tag = st.get("tag") or {}
         r = steps[i][-1]
+        if tag.get("later"):
+            # an entry newer than the ended victim has been processed
+            if r.get("status") != 200:
+                raise vlib.Inconclusive("%s: later-entry step %d failed: %s" % (prog["name"], i, r))
+            trace.append({"ev": "Later", "vsAfter": vstate(r.get("post"), tag["victim"])})
+            continue
+        if tag.get("dyn"):
+            dynamic(ctx, prog, steps, i, st, tag, r, trace, verd, stats)
+            continue
         if "req" not in tag:
             if r.get("died"):
                 raise vlib.Inconclusive("%s: node died in setup step %d: %s" % (prog["name"], i, r.get("log", "")[-300:]))
@@ -404,7 +565,7 @@ def evaluate(ctx, prog, recs, trace, verd, stats):
         replay = {"program": {"name": prog["name"], "opts": prog.get("opts", {}), "steps": prog["steps"][:i + 1]}, "step": i}
         if r.get("err") and not r.get("status"):
             raise vlib.Inconclusive("%s step %d: request failed: %s" % (prog["name"], i, r["err"]))
-        obs, changed, lines = observe(r, victim, private)
+        obs, changed, lines = observe(r, victim, private, req["method"])
         vs = vstate(r.get("pre"), victim) if victim else "fresh"
         vs_after = vstate(r.get("post") or r.get("pre"), victim) if victim else "fresh"
         # a 301 of net/http's ServeMux (path cleaning, subtree redirect) is not an endpoint
@@ -448,7 +609,12 @@ def evaluate(ctx, prog, recs, trace, verd, stats):
                 elif req["method"] == "GET" and req["shape"] == "sid/messages" and r.get("status", 0) < 400:
                     verd.bad("messages-stream-opened-without-secret-" + cls,
                              "GET %s with credential %s (%s) was answered %s" % (st["path"], req["cred"], tag.get("auth"), r.get("status")), replay)
-        trace.append({"ev": "Req", "req": req, "vs": vs, "vsAfter": vs_after, "login": bool(tag.get("login")), "obs": obs})
+                elif 200 <= r.get("status", 0) < 300:
+                    verd.bad("refused-request-answered-2xx-" + cls,
+                             "%s %s with credential %s (%s) on a %s session was answered %s: not refused" % (
+                                 st["method"], st["path"], req["cred"], tag.get("auth"), tag.get("sessState", vs), r.get("status")), replay)
+        trace.append({"ev": "Req", "req": req, "vs": vs, "vsAfter": vs_after, "ns": tag.get("ns", "absent"),
+                      "kind": tag.get("kind", "plain"), "obs": obs})
         if tag.get("row"):
             stats["rows"] = stats.get("rows", 0) + 1
 
@@ -526,7 +692,9 @@ def run(ctx):
     progs = public_programs(ctx, table, g, 2)
     progs += private_programs(ctx, table, g, shards, priv_fuzz)
     progs += public_fuzz_programs(ctx, pub_fuzz, g, 2)
+    progs += dynamic_programs(ctx, table, g, 2)
     nreq = sum(1 for p in progs for s in p["steps"] if "req" in (s.get("tag") or {}))
+    ctx.cov["victim_states"] = ["fresh", "loggedIn", "quitLast (ended, ErrSessionNotYetSeen)", "deleted (ended, ErrNoSuchSession: by DELETE / by QUIT + later entry)"]
     ctx.log("replaying %d requests in %d programs" % (nreq, len(progs)))
     res = rig_common.run(ctx, binary, progs, par=8 if ctx.quick else 12, timeout=3000)
     trace = []
